@@ -1,4 +1,61 @@
 import Driver.Loop
 import ElaVerif.Model.WireDriver
+import ElaVerif.Model.P2PFrame
+import ElaVerif.Gen.C02
+/-
+  C02 driver: the decoder ops of `Model/WireDriver.lean`, plus the message-level read path
 
-def main : IO Unit := Driver.runPure ElaVerif.WireDriver.step
+    msg <stack> <magic> <hex stream> [alloc=<measured>]   →  <class> <consumed>
+
+  `p2p.ReadMessage` with the stack's command switch and `CheckAndCreateMessage`, modelled by
+  `P2PFrame.readMessage` (shared model of C35) over the per-command maxima regenerated into
+  `Gen/C02.lean`.  class ∈ short-header | invalid-header | magic | unhandled | size | short-payload |
+  checksum | body (the payload arrived and was handed to the message decoder).
+  The allocation clause: the payload buffer is `declared length` bytes if the declared length is at
+  most the command's maximum, nothing otherwise; the decoder may add `msgK` bytes per supplied byte.
+-/
+open ElaVerif.P2PFrame Driver
+
+namespace C02Drv
+
+def strBytes (s : String) : List UInt8 := s.toUTF8.toList
+
+def stack? : String → Option (List (List UInt8 × Nat))
+  | "elanet" => some (ElaVerif.Gen.C02.msgMax_elanet.map fun e => (strBytes e.1, e.2))
+  | "dpos" => some (ElaVerif.Gen.C02.msgMax_dpos.map fun e => (strBytes e.1, e.2))
+  | _ => none
+
+def errStr : Err → String
+  | .shortHeader => "short-header"
+  | .invalidHeader => "invalid-header"
+  | .unmatchedMagic => "magic"
+  | .unhandled => "unhandled"
+  | .sizeExceeded => "size"
+  | .shortPayload => "short-payload"
+  | .invalidPayload => "checksum"
+  | .deserialize => "body"
+
+/-- decoder allocation per supplied payload byte granted at message level -/
+def msgK : Nat := 1100
+
+def stepMsg (st magic hex : String) (extra : List String) : String :=
+  match stack? st, nat? magic, ElaVerif.WireDriver.hexBytes? hex with
+  | some t, some m, some s =>
+    let o := readMessage ElaVerif.Sha256.sha256d t (fun _ p => some p) m s
+    let cls := match o.res with | .ok _ => "body" | .error e => errStr e
+    let out := s!"{cls} {o.consumed}"
+    match ElaVerif.WireDriver.measured? extra with
+    | some measured =>
+      -- payload buffer (with allocator rounding) + decoder share + fixed overhead
+      let meter := o.alloc + o.alloc / 4 + msgK * s.length + 65536
+      if measured ≤ meter then out else out ++ s!" ALLOC {meter}"
+    | none => out
+  | _, _, _ => "bad-op"
+
+def step : List String → String
+  | "msg" :: st :: magic :: hex :: extra => stepMsg st magic hex extra
+  | t => ElaVerif.WireDriver.step t
+
+end C02Drv
+
+def main : IO Unit := Driver.runPure C02Drv.step
